@@ -39,6 +39,8 @@ func runC01(c *an.Ctx) {
 	c.As(map[string]string{"R09j": "R01n"}, func() { r09j(c) })
 	// round 8
 	r01o(c)
+	// round 9
+	r01q(c)
 }
 
 type fsmEvent struct {
